@@ -28,6 +28,9 @@ pub mod aead {
     pub struct Error;
 }
 pub mod aes_gcm { pub mod aead { pub use super::super::aead::Error; } }
+/// digest::InvalidLength / crypto_common::InvalidLength
+#[verifier::external_body]
+pub struct InvalidLength { _e: u8 }
 
 #[verifier::external_body]
 pub struct CipherMethod { _x: u8 }
